@@ -394,8 +394,21 @@ func scenC06(g *Gen, dir string) ([]*Op, func(e *Env, i int, op *Op, obs []strin
 	r := g.r
 	create, groups := g.baseImage(4, 8)
 	ops := []*Op{keysOp(), create}
-	// pre-signing history: delete the lowest object of a group (relative IDs shift), add elsewhere
-	if r.Chance(1, 3) {
+	// pre-signing history: a group is emptied, its low slot goes to another group, and the group
+	// number is used again (whatever the handle remembers about the old members must be gone)
+	if gs0 := sortedGroups(groups); len(gs0) >= 2 && r.Chance(1, 5) {
+		gid := pick(r, gs0)
+		other := gs0[0]
+		if other == gid {
+			other = gs0[1]
+		}
+		ops = append(ops,
+			&Op{Kind: "del", Sel: Sel{Kind: "grp", N: int64(gid)}, T: TOpt{Kind: "det"}, Compact: r.Chance(1, 2)},
+			&Op{Kind: "add", T: TOpt{Kind: "det"}, DI: DI{DT: 0x4007, Fail: -1, Data: DataSpec{Lit: r.Bytes(7)}, Opts: []DIOpt{{Kind: "group", N: other}}}},
+			&Op{Kind: "add", T: TOpt{Kind: "det"}, DI: DI{DT: 0x4007, Fail: -1, Data: DataSpec{Lit: r.Bytes(11)}, Opts: []DIOpt{{Kind: "group", N: gid}}}})
+		g.count("pre:group-emptied-and-reused")
+		groups = nil
+	} else if r.Chance(1, 3) {
 		gid := pick(r, sortedGroups(groups))
 		if len(groups[gid]) > 1 {
 			ops = append(ops, &Op{Kind: "del", Sel: Sel{Kind: "id", N: int64(groups[gid][0])}, T: TOpt{Kind: "det"}, Compact: r.Chance(1, 2)})
